@@ -80,6 +80,12 @@ def setup():
     finally:
         logging.disable(logging.NOTSET)
     _state["models"] = models
+    # rcParams keys that hold a sound-class model (the names accepted as a string-valued model argument)
+    _state["rc_names"] = {}
+    for k in sorted(rcParams):
+        v = rcParams[k]
+        if isinstance(v, Model) and v.name in models:
+            _state["rc_names"].setdefault(v.name, []).append(k)
     _state["art_names"] = [a for a in sc_tables.art_models(
         open(os.path.join(env.SRC, "lingpy", "settings.py"), encoding="utf8").read()) if a in models]
     defs = ["Local Open Scope Z_scope.",
@@ -88,6 +94,9 @@ def setup():
                 cps(rc["vowels"]), cps(rc["tones"]), cps(rc["nasal_placeholder"])),
             "Definition custom_ks : kwstrings := mk_ks %s %s %s %s %s %s %s %s." % (
                 cps(CUSTOM["breaks"]), cps(CUSTOM["combiners"]), cps(CUSTOM["stress"]), cps(CUSTOM["diacritics"]),
+                cps(CUSTOM["semis"]), cps(CUSTOM["vowels"]), cps(CUSTOM["tones"]), cps(rc["nasal_placeholder"])),
+            "Definition custom_pipe_ks : kwstrings := mk_ks %s %s %s %s %s %s %s %s." % (
+                cps(CUSTOM["breaks"] + "-"), cps(CUSTOM["combiners"]), cps(CUSTOM["stress"]), cps(CUSTOM["diacritics"]),
                 cps(CUSTOM["semis"]), cps(CUSTOM["vowels"]), cps(CUSTOM["tones"]), cps(rc["nasal_placeholder"])),
             "Definition rc_stress : list char := %s." % cps(rc["stress"]),
             "Definition rc_diacs : list char := %s." % cps(rc["diacritics"])]
@@ -183,8 +192,21 @@ def run_impl(case):
     if kind == "t2c":
         model = _model(case)
         arg = list(case["toks"])            # ONE list object for all calls; compared with the case afterwards
-        single = [guarded(lambda t=t: str(sc.token2class(t, model, cldf=case["cldf"]))) for t in case["toks"]]
-        out = guarded(lambda: [str(c) for c in sc.tokens2class(arg, model, cldf=case["cldf"])])
+        key = case.get("by_name")
+        if key:
+            # the string-valued model argument: token2class / tokens2class look the name up in rcParams
+            # (rebound to the file-fresh model for the duration of the call, restored afterwards)
+            saved = rcParams[key]
+            rcParams[key] = model
+            model_arg = key
+        else:
+            model_arg = model
+        try:
+            single = [guarded(lambda t=t: str(sc.token2class(t, model_arg, cldf=case["cldf"]))) for t in case["toks"]]
+            out = guarded(lambda: [str(c) for c in sc.tokens2class(arg, model_arg, cldf=case["cldf"])])
+        finally:
+            if key:
+                rcParams[key] = saved
         return {"single": single, "out": out, "after": [str(t) for t in arg]}
     if kind == "pros":
         arg = list(case["l"])
@@ -232,6 +254,44 @@ def run_impl(case):
         finally:
             rcParams["art"] = saved
         return {"steps": steps}
+    if kind == "pipe":
+        # the whole chain, every stage fed with the implementation's OWN previous output
+        mv, mg, semi, ex = case["flags"]
+        kwds = dict(merge_vowels=mv, merge_geminates=mg, expand_nasals=ex)
+        if case["ks"] == "custom":
+            kwds.update(breaks=CUSTOM["breaks"] + "-", combiners=CUSTOM["combiners"], stress=CUSTOM["stress"],
+                        diacritics=CUSTOM["diacritics"], vowels=CUSTOM["vowels"], tones=CUSTOM["tones"],
+                        semi_diacritics=CUSTOM["semis"] if semi else "")
+        tk = guarded(lambda: [str(t) for t in sc.ipa2tokens(case["s"], **kwds)])
+        res_ = {"toks": tk, "single": [], "cls": ("ValueErr",), "aligned": [], "out": [], "pro": ("ValueErr",),
+                "weights": None}
+        if tk[0] != "ok":
+            return res_
+        model = _state["models"][case["model"]]
+        art = _state["models"][case["art"]]
+        tokens = list(tk[1])
+        res_["single"] = [guarded(lambda t=t: str(sc.token2class(t, model, cldf=case["cldf"]))) for t in tokens]
+        cls = guarded(lambda: [str(c) for c in sc.tokens2class(tokens, model, cldf=case["cldf"])])
+        res_["cls"] = cls
+        if cls[0] == "ok":
+            g = random.Random(case["gapseed"])
+            aligned = list(cls[1])
+            for _ in range(g.randint(0, 4)):
+                aligned.insert(g.randrange(len(aligned) + 1), g.choice(["-", "-", "X"]))
+            arg = "".join(aligned) if (case["gapseed"] % 2 and all(len(c) == 1 for c in aligned)) else list(aligned)
+            res_["aligned"] = aligned
+            res_["out"] = [str(t) for t in sc.class2tokens(tokens, arg, gap_char=case["gap"])]
+        saved = rcParams["art"]
+        rcParams["art"] = art
+        try:
+            pro = guarded(lambda: str(sc.prosodic_string(tokens)))
+        finally:
+            rcParams["art"] = saved
+        res_["pro"] = pro
+        if pro[0] == "ok":
+            res_["weights"] = guarded(lambda: [_frac(x) for x in sc.prosodic_weights(pro[1])])
+        res_["after"] = [str(t) for t in tokens]
+        return res_
     if kind == "c2t":
         cl = case["classes"]
         # the SAME token / class-string objects go into every call (a history of two global and two
@@ -280,6 +340,15 @@ def render(case, r):
             "KeyErr" if q["weights"] is None else res(q["weights"], qs), toks(q["after"]))
             for (cldf, tk), q in zip(case["steps"], r["steps"])]
         return "(CProsSeq sc_%s rc_stress rc_diacs [%s])" % (case["art"], "; ".join(steps))
+    if kind == "pipe":
+        ks = "custom_pipe_ks" if case["ks"] == "custom" else "rc_ks"
+        w = r["weights"]
+        return ("(CPipe (mk_pipe %s (mk_fl %s %s %s %s) %s sc_%s sc_%s rc_stress rc_diacs %s %s %s [%s] %s %s %s %s %s))"
+                % (ks, b(case["flags"][0]), b(case["flags"][1]), b(case["flags"][2]), b(case["flags"][3]),
+                   cps(case["s"]), case["model"], case["art"], b(case["cldf"]), cps(case["gap"]),
+                   res(r["toks"], toks), "; ".join(res(x, cps) for x in r["single"]), res(r["cls"], toks),
+                   toks(r["aligned"]), toks(r["out"]), res(r["pro"], cps),
+                   "KeyErr" if w is None else res(w, qs)))
     if kind == "c2t":
         return "(CC2T %s %s %s %s %s %s %s %s %s %s %s)" % (
             cps(case["gap"]), toks(case["tokens"]), toks(case["classes"]), toks(r["out"]),
@@ -393,7 +462,11 @@ def t2c_random(rng, n, maxlen):
         ts = [random_token(rng, model) for _ in range(ln)]
         if rng.random() < 0.08:
             ts = [rng.choice("?%$") for _ in range(ln)]          # only unknown sounds
-        yield {"kind": "t2c", "model": name, "cldf": rng.random() < 0.6, "toks": ts}
+        case = {"kind": "t2c", "model": name, "cldf": rng.random() < 0.6, "toks": ts}
+        keys = _state["rc_names"].get(name)
+        if keys and rng.random() < 0.5:
+            case["by_name"] = rng.choice(keys)          # pass the model as its rcParams name
+        yield case
 
 
 def prostok_random(rng, n, maxlen):
@@ -492,6 +565,23 @@ def prosseq_random(rng, n, maxlen):
         yield {"kind": "prosseq", "art": art, "steps": steps}
 
 
+def pipe_random(rng, n, maxlen):
+    """string -> tokens -> classes -> aligned classes -> class2tokens, + prosodic string / weights"""
+    names = sorted(_state["models"])
+    base = list(ipa_default_random(rng, n, maxlen))
+    for i, c in enumerate(base):
+        yield {"kind": "pipe", "ks": "rc", "flags": [rng.random() < 0.6, rng.random() < 0.6, False, False],
+               "s": c["s"], "model": names[i % len(names)], "art": _state["art_names"][i % len(_state["art_names"])],
+               "cldf": rng.random() < 0.6, "gap": "-", "gapseed": rng.randrange(10 ** 6)}
+
+
+def pipe_words():
+    for i, w in enumerate(WORDS + ["faːtər.muːtər", "ˈaɪ̯nə", "ko²¹-ta⁵"]):
+        for name in sorted(_state["models"]):
+            yield {"kind": "pipe", "ks": "rc", "flags": [True, True, False, False], "s": w, "model": name,
+                   "art": _state["art_names"][0], "cldf": True, "gap": "-", "gapseed": 7 * i + 1}
+
+
 def pros_exhaustive(maxlen, values=range(0, 10), minlen=0):
     for n in range(minlen, maxlen + 1):
         for tup in itertools.product(values, repeat=n):
@@ -581,6 +671,10 @@ def nontrivial(case, r):
         segs = {tuple(tk) for _, tk in case["steps"]}
         return len(segs) >= 2 and len({"".join(sg) for sg in segs}) == 1 and \
             all(q["out"][0] == "ok" for q in r["steps"])
+    if kind == "pipe":
+        # every stage returned, some token has several characters and a gap was re-inserted
+        return r["toks"][0] == "ok" and r["cls"][0] == "ok" and any(len(t) > 1 for t in r["toks"][1]) \
+            and len(r["out"]) > len(r["toks"][1])
     if kind == "c2t":
         return len(r["out"]) > len(case["tokens"]) and len(case["tokens"]) > 0
     return False
@@ -626,6 +720,9 @@ def shrink(case):
         if len(case["steps"]) > 1:
             for st in _drops(case["steps"]):
                 yield dict(case, steps=st)
+    elif kind == "pipe":
+        for s_ in _drops(case["s"]):
+            yield dict(case, s=s_)
     elif kind == "pros":
         for l in _drops(case["l"]):
             yield dict(case, l=l)
@@ -652,6 +749,8 @@ def classify(case, r):
             out.append("ipa_null_glyph")
     elif kind == "t2c":
         out.append("model=" + (case["model"] if isinstance(case["model"], str) else "small"))
+        if case.get("by_name"):
+            out.append("model_given_by_name")
         out.append("t2c_" + r["out"][0])
     elif kind == "pros":
         out.append("mode=" + case["mode"])
@@ -664,6 +763,10 @@ def classify(case, r):
         out.append("history_len=%d" % min(len(case["steps"]), 9))
         if any(q["out"][0] != "ok" for q in r["steps"]):
             out.append("history_with_error")
+    elif kind == "pipe":
+        out.append("pipe_model=" + case["model"])
+        out.append("pipe_toks_" + r["toks"][0])
+        out.append("pipe_cls_" + r["cls"][0])
     elif kind == "c2t":
         out.append("c2t_gaps=%d" % min(4, len(r["out"]) - len(case["tokens"])))
     return out
@@ -702,6 +805,10 @@ def model_expr(case, r, rundir):
         expr = "[%s]" % "; ".join(
             "prosodic_string_tokens (assoc_find sc_%s) %s %s OTrue %s" % (case["art"], st, b(c), toks(tk))
             for c, tk in case["steps"])
+    elif kind == "pipe":
+        ks = "custom_pipe_ks" if case["ks"] == "custom" else "rc_ks"
+        expr = "ipa2tokens (kw_of_run %s (mk_fl %s %s %s %s)) %s" % (
+            ks, b(case["flags"][0]), b(case["flags"][1]), b(case["flags"][2]), b(case["flags"][3]), cps(case["s"]))
     elif kind == "prostok":
         expr = "(sonority (assoc_find sc_%s) %s false %s, prosodic_string_tokens (assoc_find sc_%s) %s false OTrue %s)" % (
             case["art"], st, toks(case["toks"]), case["art"], st, toks(case["toks"]))
